@@ -693,6 +693,35 @@ def byname(F, res):
         res.add([finding("BYNAME", key2, where(ff), "find_field_value does not search the whole list of explicit fields by name equality")])
 
 
+def formula_time(F, res):
+    """FORMULA: the slot/time built-ins are the affine maps anchored at the chain cursor (1 slot = 1000 ms):
+         slot_to_time(s) = cursor.timestamp + (s - cursor.slot) * 1000       time_to_slot(t) = cursor.slot + (t - cursor.timestamp) / 1000
+    compared as canonical symbolic forms (see rules/symexpr.py).  Functions found under their public names; a tree without them
+    is not decided (assumption)."""
+    from .. import symexpr
+    from ..common import with_helpers
+    A = lambda ty, *f: ("arg", ty, tuple(f))
+    CP = "&tx3_cardano::ChainPoint"
+    want = {
+        "tx3_cardano::ops::slot_to_time": symexpr._flat("+", [symexpr._flat("*", [("-", A("i128"), A(CP, "slot")), ("c", 1000)]), A(CP, "timestamp")]),
+        "tx3_cardano::ops::time_to_slot": symexpr._flat("+", [("/", ("-", A("i128"), A(CP, "timestamp")), ("c", 1000)), A(CP, "slot")]),
+    }
+    for p, spec in want.items():
+        key = "%s|affine in the cursor" % p
+        f0 = F.fns.get(p)
+        if f0 is None:
+            res.add([assumption("FORMULA", key, "crates/tx3-cardano/src/ops.rs", "%s not found under this name: not decided" % p.split("::")[-1])])
+            continue
+        f = with_helpers(F, p)
+        e = symexpr.expr_of(F, f, mir.DefUse(f), {"l": 0, "p": []})
+        if e == spec:
+            res.add([ok("FORMULA", key, where(f0), "canonical form: %s" % symexpr.show(e))])
+        elif isinstance(e, tuple) and e[0] == "?":
+            res.add([assumption("FORMULA", key, where(f0), "expression outside the recognised fragment (%s): not decided" % e[1])])
+        else:
+            res.add([finding("FORMULA", key, where(f0), "%s computes %s, the built-in denotes %s" % (p.split("::")[-1], symexpr.show(e), symexpr.show(spec)))])
+
+
 def run(ctx_):
     F = ctx_.F
     res = Result("C01")
@@ -713,4 +742,16 @@ def run(ctx_):
     nofilter(F, res)
     order(F, res)
     byname(F, res)
+    # quantities of one policy / account written in several blocks are aggregated, not overwritten (rule shared with C02)
+    from . import c02
+    res.rule("MERGE", "quantity-bearing maps are combined by aggregation, never by overwrite: nothing the template mints, burns or withdraws is dropped")
+    r2 = Result("C01")
+    c02.merge_rule(F, r2, CallGraph(F).reachable(c02.ROOTS))
+    known_c02 = {"tx3_cardano::compile::compile_withdrawals|collect into std::result::Result<BTreeMap<Bytes, u64>, tx3_tir::compile::Error>"}
+    for o in r2.obs:
+        if o.status == "finding" and o.key in known_c02:
+            continue   # the duplicate-withdrawal finding is listed under C02
+        res.add([o])
+    res.rule("FORMULA", "slot_to_time / time_to_slot are the affine maps anchored at the chain cursor, as canonical symbolic forms")
+    formula_time(F, res)
     return res
